@@ -118,6 +118,8 @@ impl ImageHeader {
                 let header = match format {
                     0x01 => {
                         // Only known format is 1 = JPEG
+                        // A version 1 image header is 16 octets long, and is written as such.
+                        ensure_eq!(length, 16, "invalid jpeg image header length");
                         let data = data.read_arr::<12>()?;
                         ImageHeaderV1::Jpeg { data }
                     }
